@@ -1,8 +1,95 @@
 /-
-  C20 — theorems are being added (see DESIGN.md §7 C20)
+  C20 — a terminal abort always surfaces as an error identifying its result code.
+  Theorems about the decision every operation takes on a decoded abort packet, for ALL codes; that the
+  decision is reached for every position of the abort in the reply script is what the retry/sequence
+  model carries (an abort packet is yielded to the caller's loop: C05) and the correspondence checks.
 -/
 import ZvtVerif.Client
+import ZvtVerif.Spec.Layout
 namespace Zvt.C20
 open Zvt
+
+/-- the code ↔ message table translated from constants.rs on this run equals the specification's. -/
+theorem errorTable_eq_spec : Generated.errorTable = Spec.errorTable := by decide +kernel
+
+/-- `e` names the result code `c`. -/
+def Identifies (e : CErr) (c : Nat) : Prop :=
+  e = .zvt (.aborted c) ∨ e = .other ("Unknown error code: 0x" ++ hexUpper c) ∨
+  ∃ m, errorMessage c = some m ∧ e = .other ("Unhandled error: " ++ m)
+
+/-- **read card**: every abort is an error naming the code, except the documented 0x6C ↦ "no card". -/
+theorem readCard_abort (e : EnumDef) (s : Option Card) (i : Nat) (v : Val) (h : variantName e i = "Abort") :
+    ∃ er, readCardStep e s (.ok i v) = .ret (.error er) ∧
+      ((errorCode abortStruct v = 0x6c ∧ errorMessage 0x6c ≠ none ∧ er = .noCard) ∨ Identifies er (errorCode abortStruct v)) := by
+  refine ⟨readCardAbort (errorCode abortStruct v), by simp [readCardStep, h], ?_⟩
+  generalize errorCode abortStruct v = c
+  unfold readCardAbort
+  cases hm : errorMessage c with
+  | none => right; right; left; rfl
+  | some m =>
+    by_cases hc : c = 0x6c
+    · left; subst hc; exact ⟨rfl, by simp [hm], by simp⟩
+    · right; right; right; exact ⟨m, hm, by simp [hc]⟩
+
+/-- **begin**: every abort is an error naming the code, except the documented 0xFC ↦ "PIN required". -/
+theorem begin_abort (e : EnumDef) (s : Option Nat) (i : Nat) (v : Val) (h : variantName e i = "Abort") :
+    ∃ er, beginStep e s (.ok i v) = .ret (.error er) ∧
+      ((errorCode abortStruct v = 0xfc ∧ er = .needsPin) ∨ Identifies er (errorCode abortStruct v)) := by
+  refine ⟨beginAbort (errorCode abortStruct v), by simp [beginStep, h], ?_⟩
+  generalize errorCode abortStruct v = c
+  unfold beginAbort
+  cases hm : errorMessage c with
+  | none => right; right; left; rfl
+  | some m =>
+    by_cases hc : c = 0xfc
+    · left; exact ⟨hc, by simp [hc]⟩
+    · right; left; simp [hc]
+
+/-- **commit**: every abort fails the call with `Aborted(c)` — whatever was received before it. -/
+theorem commit_abort (e : EnumDef) (s : Option Val) (i : Nat) (v : Val)
+    (h : variantName e i = "PartialReversalAbort") :
+    commitStep e s (.ok i v) = .ret (.error (.zvt (.aborted (errorCode prAbortStruct v)))) := by
+  have hne : ¬ (variantName e i = "StatusInformation") := by rw [h]; decide
+  simp [commitStep, h, hne]
+
+/-- **cancel / reversal of a dangling pre-authorisation**. -/
+theorem reversal_abort (e : EnumDef) (i : Nat) (v : Val) (h : variantName e i = "PartialReversalAbort") :
+    reversalDecide e i v = .ret (.error (.zvt (.aborted (errorCode prAbortStruct v)))) := by
+  have hne : ¬ (variantName e i = "CompletionData") := by rw [h]; decide
+  simp [reversalDecide, h, hne]
+
+/-- **initialisation**. -/
+theorem init_abort (e : EnumDef) (i : Nat) (v : Val) (h : variantName e i = "Abort") :
+    initDecide e i v = .ret (.error (.zvt (.aborted (errorCode abortStruct v)))) := by
+  have hne : ¬ (variantName e i = "CompletionData") := by rw [h]; decide
+  simp [initDecide, h, hne]
+
+/-- **set terminal id**: anything but a completion is the abort. -/
+theorem setTid_abort (e : EnumDef) (i : Nat) (v : Val) (h : variantName e i = "Abort") :
+    setTidDecide e i v = .ret (.error (.zvt (.aborted (errorCode abortStruct v)))) := by
+  have hne : ¬ (variantName e i = "CompletionData") := by rw [h]; decide
+  simp [setTidDecide, hne]
+
+/-- **end-of-day**: "receiver not ready" (0xA0) is tolerated, every other abort is reported with its code. -/
+theorem eod_abort (e : EnumDef) (i : Nat) (v : Val) (h : variantName e i = "Abort") :
+    eodDecide e i v = if errorCode prAbortStruct v = 0xa0 then .ret (.ok ()) else .ret (.error (.zvt (.aborted (errorCode prAbortStruct v)))) := by
+  have hne : ¬ (variantName e i = "CompletionData") := by rw [h]; decide
+  simp [eodDecide, h, hne]
+
+/-- the three documented exceptions really are the table's entries they are documented as. -/
+theorem documented_codes :
+    errorMessage 0x6c = some "abort via timeout or abort-key" ∧
+    errorMessage 0xfc = some "necessary device not present or defective" ∧
+    errorMessage 0xa0 = some "receiver not ready" := by decide +kernel
+
+/-- no decision ever turns an abort into a *successful* result, except end-of-day's 0xA0. -/
+theorem abort_never_success :
+    (∀ e s i v, variantName e i = "Abort" → ∀ c, readCardStep e s (.ok i v) ≠ .ret (.ok c)) ∧
+    (∀ e s i v, variantName e i = "Abort" → beginStep e s (.ok i v) ≠ .ret (.ok ())) ∧
+    (∀ e s i v, variantName e i = "PartialReversalAbort" → ∀ x, commitStep e s (.ok i v) ≠ .ret (.ok x)) := by
+  refine ⟨?_, ?_, ?_⟩
+  · intro e s i v h c; simp [readCardStep, h]
+  · intro e s i v h; simp [beginStep, h]
+  · intro e s i v h x; rw [commit_abort e s i v h]; simp
 
 end Zvt.C20
